@@ -116,8 +116,11 @@ class Eval:
             return z3.Not(opt_is_none(v))
         if v.t == NONE:
             return z3.BoolVal(False)
-        if isinstance(v.t, TFun) or (isinstance(v.t, TU) and v.t.uname == "opaque"):
-            # a callable-or-None / uninterpreted value: its truth value is not tracked (arbitrary)
+        if isinstance(v.t, TFun):
+            # a callable-or-None parameter: whether it is set is not known, but it does not change during the call
+            return z3.Bool(f"truthy!{v.t.fname}")
+        if isinstance(v.t, TU) and v.t.uname == "opaque":
+            # an uninterpreted value: its truth value is not tracked (arbitrary)
             return self.ex.new_sym(BOOL, "truth", self.st).z
         raise Unsupported(f"truthiness of {v.t}")
 
